@@ -269,6 +269,9 @@ type c18Workload struct {
 	// client 0 increases it SideOps times, after the workload the last client increases it once more: the logs of
 	// the two datatypes have different lengths, and each is numbered from 1
 	SideOps int `json:"side_counter_ops,omitempty"`
+	// SideLate: clients 1.. open their second datatype right after issuing an operation on the first one, i.e.
+	// while the sync of that operation is in flight (RPCMax should be > 0)
+	SideLate bool `json:"side_opened_during_a_sync,omitempty"`
 }
 
 type rtClient struct {
@@ -410,6 +413,16 @@ func c18Run(wl c18Workload) (quiescent bool, calls map[string]int, err error) {
 		}
 		if wl.SideOps > 0 {
 			sk := w.keys[1]
+			if wl.SideLate && i > 0 {
+				call := c06CheapCall(wl.Kind, 8000+i)
+				if wl.Kind == sim.Counter {
+					call = c07Op(wl.Kind, 8000+i)
+				}
+				if res := sim.Exec(wl.Kind, r.dt, call); res.Panic != nil {
+					return false, calls, fmt.Errorf("local call on a realtime client panicked: %v", res.Panic)
+				}
+				time.Sleep(time.Duration(100*i) * time.Microsecond)
+			}
 			r.side = openRealtime(cl, sim.Counter, sk.Name, i == 0, r.handlers())
 			if !waitUntil(5*time.Second, func() bool { return r.side.GetState() == model.StateOfDatatype_SUBSCRIBED }) {
 				return false, calls, fmt.Errorf("realtime client %d: its second datatype never became subscribed by itself (errors: %v)", i, r.errs)
@@ -758,6 +771,42 @@ func TestC18OpenTransaction(t *testing.T) {
 		}
 		b, _ := json.Marshal(wl)
 		col.Case(fail, string(b), []string{"kind=" + string(kind), fmt.Sprintf("tx-fails=%v", fail)}, func() interface{} { return wl })
+	})
+}
+
+// TestC18SecondDatatypeWhileSyncing: a realtime client opens (subscribes to) a second datatype while the sync of an
+// operation on its first datatype is in flight: the second datatype has to become subscribed by itself all the same.
+func TestC18SecondDatatypeWhileSyncing(t *testing.T) {
+	col := stats.New("C18", t.Name(),
+		"2-3 REAL realtime clients on a Counter / Map / List / Document; RPCs take up to 3-10 ms (drawn); client 0 creates a second datatype (a counter); every other client issues one operation on the first datatype and, 100-200 us later - the sync of that operation is in flight -, subscribes to the second one; then 0-3 operations by drawn clients; "+
+			"oracle: every second datatype becomes subscribed by itself within 5 s; at quiescence every client = refmodel(stored log) for both datatypes (as in TestC18Realtime*); non-trivial = every case; distinct = hash of the workload")
+	col.Assume("schedule coverage is sampled; convergence is checked in its safety form quiescent => converged")
+	checkProp(t, "C18", col, func(c *caseCtx) {
+		rt := c.rt
+		kind := kindFromDraw(rt)
+		wl := c18Workload{Kind: kind, Clients: rapid.IntRange(2, 3).Draw(rt, "clients"), IDSeed: rapid.Uint64Range(1, 1<<40).Draw(rt, "idseed"),
+			RPCMax: rapid.SampledFrom([]int{3000, 6000, 10000}).Draw(rt, "rpcdelay"), SideOps: 2, SideLate: true}
+		for i, n := 0, rapid.IntRange(0, 3).Draw(rt, "ops"); i < n; i++ {
+			call := c06CheapCall(kind, i)
+			if kind == sim.Counter {
+				call = c07Op(kind, i)
+			}
+			wl.Ops = append(wl.Ops, c18Op{C: rapid.IntRange(0, wl.Clients-1).Draw(rt, "c"), Call: call, Sleep: rapid.SampledFrom([]int{0, 500}).Draw(rt, "sleep")})
+		}
+		c.j.Header = wl
+		q, _, err := c18Run(wl)
+		if err != nil {
+			if strings.Contains(err.Error(), "HARNESS-ERROR") {
+				rt.Skip(err.Error())
+			}
+			c.failf("%v", err)
+		}
+		if !q {
+			col.Label("no-quiescence-within-budget")
+			rt.Skip("no quiescence")
+		}
+		b, _ := json.Marshal(wl)
+		col.Case(true, string(b), []string{"kind=" + string(kind), fmt.Sprintf("clients=%d", wl.Clients)}, func() interface{} { return wl })
 	})
 }
 
